@@ -1,0 +1,454 @@
+//go:build verif
+
+// Verification hook (engine router2, properties C12 C13 C15). Builds a data plane through the
+// regular configuration calls (SetIA, SetKey, AddNeighborIA, AddInternalInterface,
+// AddExternalInterface, AddNextHop) on the registered udpip underlay with a connection opener
+// that never touches the network, and exposes the fast-path and slow-path packet processors.
+// Nothing here is compiled without the `verif` build tag.
+
+package router
+
+import (
+	"context"
+	"fmt"
+	"net"
+	"net/netip"
+	"sync"
+	"time"
+	"unsafe"
+
+	"github.com/gopacket/gopacket/layers"
+	"github.com/prometheus/client_golang/prometheus"
+
+	"github.com/scionproto/scion/pkg/addr"
+	"github.com/scionproto/scion/private/topology"
+	"github.com/scionproto/scion/private/underlay/conn"
+	"github.com/scionproto/scion/router/bfd"
+	"github.com/scionproto/scion/router/control"
+)
+
+// VerifR2If describes one SCION interface of the local AS as seen by the router under test.
+type VerifR2If struct {
+	ID       uint16
+	Sibling  bool // owned by a sibling router (configured with AddNextHop), else owned (external)
+	LinkTo   topology.LinkType
+	Neighbor addr.IA
+	BFD      bool   // a BFD session is configured for the link
+	Remote   string // underlay address of the far end (sibling: the sibling router's address)
+}
+
+// VerifR2Cfg is the configuration of a data plane under test.
+type VerifR2Cfg struct {
+	IA         addr.IA
+	Key        []byte
+	Ifs        []VerifR2If
+	ReuseLocal bool // what the connection opener answers to UDPCanReuseLocal (sibling link kind)
+	PortStart  uint16
+	PortEnd    uint16
+	SvcCS      bool // register a control-service backend
+	// BFD parameters of every configured session.
+	DetectMult            uint8
+	DesiredMinTxInterval  time.Duration
+	RequiredMinRxInterval time.Duration
+}
+
+// VerifR2DP wraps a configured data plane.
+type VerifR2DP struct {
+	d        *dataPlane
+	cfg      VerifR2Cfg
+	cancel   context.CancelFunc
+	sessions map[uint16]*VerifR2Session
+	proc     *scionPacketProcessor
+	slow     *slowPathPacketProcessor
+}
+
+// VerifR2Result is what the fast path did with one packet.
+type VerifR2Result struct {
+	Disp     int // 0 discard, 1 forward, 2 slow path, 3 done
+	Egress   uint16
+	Out      []byte // copy of the raw packet after processing
+	SlowType int    // slow-path request: SCMP type, or -1/-2 for router alerts
+	SlowCode int
+	SlowPtr  int
+	Remote   string // underlay destination set by address resolution (deliveries), "" if unchanged
+	pkt      *Packet
+}
+
+const (
+	VerifR2Discard = int(pDiscard)
+	VerifR2Forward = int(pForward)
+	VerifR2Slow    = int(pSlowPath)
+	VerifR2Done    = int(pDone)
+)
+
+type verifR2Opener struct{ reuse bool }
+
+func (o verifR2Opener) Open(l netip.AddrPort, r netip.AddrPort, c *conn.Config) (BatchConn, error) {
+	return &verifR2Conn{closed: make(chan struct{})}, nil
+}
+func (o verifR2Opener) UDPCanReuseLocal() bool { return o.reuse }
+
+type verifR2Conn struct {
+	once   sync.Once
+	closed chan struct{}
+}
+
+func (c *verifR2Conn) ReadBatch(conn.Messages) (int, error) {
+	<-c.closed
+	return 0, fmt.Errorf("closed")
+}
+func (c *verifR2Conn) WriteBatch(msgs conn.Messages, flags int) (int, error) {
+	return len(msgs), nil
+}
+func (c *verifR2Conn) Close() error {
+	c.once.Do(func() { close(c.closed) })
+	return nil
+}
+
+// verifR2Counter is a prometheus.Counter whose Add/Inc call back (the embedded interface is nil;
+// the session only ever calls Add).
+type verifR2Counter struct {
+	prometheus.Counter
+	f func()
+}
+
+func (c *verifR2Counter) Add(v float64) {
+	if v != 0 && c.f != nil {
+		c.f()
+	}
+}
+func (c *verifR2Counter) Inc() { c.Add(1) }
+
+// VerifR2Session gives step-wise control over the real bfd.Session of one link. Every accepted
+// message makes the session's Run loop stop in the PacketsReceived metric call (that is after
+// the message was taken from the queue and before its transition is applied) until Release is
+// called; the queue is unbuffered, so once a later message has been handed over, every earlier
+// one has been applied completely.
+type VerifR2Session struct {
+	S        *bfd.Session
+	parked   chan struct{}
+	release  chan struct{}
+	isParked bool
+}
+
+// VerifR2New configures a data plane. BFD sessions exist but are not running until StartBFD.
+func VerifR2New(cfg VerifR2Cfg) (v *VerifR2DP, err error) {
+	defer func() {
+		if r := recover(); r != nil {
+			err = fmt.Errorf("panic while configuring: %v", r)
+		}
+	}()
+	d := newDataPlane(RunConfig{NumProcessors: 1, NumSlowPathProcessors: 1, BatchSize: 4}, false)
+	if err := d.SetIA(cfg.IA); err != nil {
+		return nil, err
+	}
+	if err := d.SetKey(cfg.Key); err != nil {
+		return nil, err
+	}
+	for _, i := range cfg.Ifs {
+		if err := d.AddNeighborIA(i.ID, i.Neighbor); err != nil {
+			return nil, err
+		}
+	}
+	d.SetPortRange(cfg.PortStart, cfg.PortEnd)
+	d.underlays["udpip"].SetConnOpener(verifR2Opener{reuse: cfg.ReuseLocal})
+	internalAddr := "198.51.100.1:3333"
+	localHost := addr.HostIP(netip.MustParseAddrPort(internalAddr).Addr())
+	if err := d.AddInternalInterface(localHost, "udpip", internalAddr); err != nil {
+		return nil, err
+	}
+	for _, i := range cfg.Ifs {
+		disable := !i.BFD
+		b := control.BFD{
+			Disable:               &disable,
+			DetectMult:            cfg.DetectMult,
+			DesiredMinTxInterval:  cfg.DesiredMinTxInterval,
+			RequiredMinRxInterval: cfg.RequiredMinRxInterval,
+		}
+		rh := addr.HostIP(netip.MustParseAddrPort(i.Remote).Addr())
+		if i.Sibling {
+			link := control.LinkInfo{
+				Provider: "udpip",
+				Local:    control.LinkEnd{IA: cfg.IA, Addr: internalAddr},
+				Remote:   control.LinkEnd{IA: i.Neighbor, Addr: i.Remote},
+				BFD:      b,
+				LinkTo:   i.LinkTo,
+			}
+			if err := d.AddNextHop(i.ID, link, localHost, rh); err != nil {
+				return nil, err
+			}
+		} else {
+			la := "203.0.113.0:3333"
+			link := control.LinkInfo{
+				Provider: "udpip",
+				Local:    control.LinkEnd{IA: cfg.IA, Addr: la},
+				Remote:   control.LinkEnd{IA: i.Neighbor, Addr: i.Remote},
+				BFD:      b,
+				LinkTo:   i.LinkTo,
+			}
+			lh := addr.HostIP(netip.MustParseAddrPort(la).Addr())
+			if err := d.AddExternalInterface(i.ID, link, lh, rh); err != nil {
+				return nil, err
+			}
+		}
+	}
+	if cfg.SvcCS {
+		if err := d.AddSvc(addr.SvcCS, addr.MustParseHost("10.0.200.200"), 30652); err != nil {
+			return nil, err
+		}
+	}
+	v = &VerifR2DP{d: d, cfg: cfg, sessions: map[uint16]*VerifR2Session{}}
+	v.proc = newPacketProcessor(d)
+	v.slow = newSlowPathProcessor(d)
+	return v, nil
+}
+
+// Link returns the link a packet is received on: 0 = the internal link, an owned interface id =
+// its external link, a sibling-owned interface id = the sibling link to its owner.
+func (v *VerifR2DP) Link(ifID uint16) Link { return v.d.interfaces[ifID] }
+
+// LinkInfo reports (exists, scope, IfID(), IsUp(), has a BFD session) of the link behind ifID.
+func (v *VerifR2DP) LinkInfo(ifID uint16) (ok bool, scope int, id uint16, up bool, sess bool) {
+	l := v.d.interfaces[ifID]
+	if l == nil {
+		return false, 0, 0, false, false
+	}
+	return true, int(l.Scope()), l.IfID(), l.IsUp(), l.BFDSession() != nil
+}
+
+// SameLink tells whether two interface ids are served by the same link object.
+func (v *VerifR2DP) SameLink(a, b uint16) bool {
+	return v.d.interfaces[a] != nil && v.d.interfaces[a] == v.d.interfaces[b]
+}
+
+func (v *VerifR2DP) newPacket(raw []byte, via uint16) *Packet {
+	pktBuf := &([bufSize]byte{})
+	p := &Packet{buffer: pktBuf, RawPacket: pktBuf[minHeadroom:]}
+	p.RawPacket = p.RawPacket[:len(raw)]
+	copy(p.RawPacket, raw)
+	p.Link = v.d.interfaces[via]
+	p.RemoteAddr = unsafe.Pointer(&net.UDPAddr{IP: net.IP{10, 0, 0, 77}, Port: 40077})
+	return p
+}
+
+// Process runs the fast path (a fresh use of the processor, as runProcessor does per packet) on
+// raw, received over the link behind interface id via.
+func (v *VerifR2DP) Process(raw []byte, via uint16) VerifR2Result {
+	p := v.newPacket(raw, via)
+	if p.Link == nil {
+		panic("VerifR2: no link behind that interface")
+	}
+	before := p.RemoteAddr
+	disp := v.proc.processPkt(p)
+	r := VerifR2Result{
+		Disp:     int(disp),
+		Egress:   p.egress,
+		Out:      append([]byte(nil), p.RawPacket...),
+		SlowType: int(p.slowPathRequest.spType),
+		SlowCode: int(p.slowPathRequest.code),
+		SlowPtr:  int(p.slowPathRequest.pointer),
+		pkt:      p,
+	}
+	if p.RemoteAddr != before && p.RemoteAddr != nil {
+		r.Remote = (*net.UDPAddr)(p.RemoteAddr).String()
+	}
+	return r
+}
+
+// SlowPath runs the slow-path processor on a packet that Process put on the slow path and
+// returns the packet it would send back over the ingress link (nil, err: dropped).
+func (v *VerifR2DP) SlowPath(r VerifR2Result) ([]byte, error) {
+	if r.pkt == nil || r.Disp != int(pSlowPath) {
+		return nil, fmt.Errorf("not a slow-path packet")
+	}
+	if err := v.slow.processPacket(r.pkt); err != nil {
+		return nil, err
+	}
+	return append([]byte(nil), r.pkt.RawPacket...), nil
+}
+
+// InterfaceState is the data plane's own report (control.InterfaceUp/Down) for an interface.
+func (v *VerifR2DP) InterfaceUp(ifID uint16) bool {
+	return v.d.getInterfaceState(ifID) == control.InterfaceUp
+}
+
+// StartBFD starts every configured session (as link.start does) with an unbuffered message
+// queue and the stepping metrics described at VerifR2Session. The packet pool is initialised so
+// that the sessions' senders can run.
+func (v *VerifR2DP) StartBFD() {
+	if v.cancel != nil {
+		return
+	}
+	v.d.initPacketPool(4)
+	ctx, cancel := context.WithCancel(context.Background())
+	v.cancel = cancel
+	seen := map[*bfd.Session]*VerifR2Session{}
+	for _, i := range v.cfg.Ifs {
+		l := v.d.interfaces[i.ID]
+		if l == nil || l.BFDSession() == nil {
+			continue
+		}
+		s := l.BFDSession()
+		if vs, ok := seen[s]; ok {
+			v.sessions[i.ID] = vs
+			continue
+		}
+		vs := &VerifR2Session{S: s, parked: make(chan struct{}), release: make(chan struct{})}
+		s.ReceiveQueueSize = 0
+		s.Metrics = bfd.Metrics{PacketsReceived: &verifR2Counter{f: func() {
+			vs.parked <- struct{}{}
+			<-vs.release
+		}}}
+		seen[s] = vs
+		v.sessions[i.ID] = vs
+		go func() { _ = s.Run(ctx) }()
+	}
+	// Run sets the local state to Down before it enters its loop; wait for that.
+	for s := range seen {
+		for i := 0; i < 20000 && !VerifR2SessionStarted(s); i++ {
+			time.Sleep(50 * time.Microsecond)
+		}
+	}
+}
+
+// VerifR2SessionStarted: the session has entered Run (its state is no longer the zero value
+// AdminDown). A received AdminDown is normalised to Down, so AdminDown is only the initial value.
+func VerifR2SessionStarted(s *bfd.Session) bool { return bfd.VerifR2State(s) != 0 }
+
+// Session returns the stepping handle of the session of the link behind ifID (nil: none).
+func (v *VerifR2DP) Session(ifID uint16) *VerifR2Session { return v.sessions[ifID] }
+
+// Deliver hands one BFD control packet (raw SCION packet carrying it) to the fast path over the
+// link behind via (on its own goroutine and with its own processor, because ReceiveMessage blocks
+// until the session takes the message) and waits until the session has taken it from its queue and
+// is parked before applying it. expectPark tells how long to wait for the park once processPkt has
+// returned (a message that shouldDiscard rejects never reaches the queue). Results: the fast
+// path's disposition (-1: still blocked after wait), whether the session parked, whether the call hung.
+func (v *VerifR2DP) Deliver(raw []byte, via uint16, expectPark bool, wait time.Duration) (int, bool, bool) {
+	vs := v.sessions[via]
+	done := make(chan int, 1)
+	p := v.newPacket(raw, via)
+	go func() {
+		proc := newPacketProcessor(v.d)
+		done <- int(proc.processPkt(p))
+	}()
+	t := time.After(wait)
+	if vs == nil {
+		select {
+		case d := <-done:
+			return d, false, false
+		case <-t:
+			return -1, false, true
+		}
+	}
+	grace := 20 * time.Millisecond
+	if expectPark {
+		grace = wait
+	}
+	select {
+	case <-vs.parked:
+		vs.isParked = true
+		select {
+		case d := <-done:
+			return d, true, false
+		case <-t:
+			return -1, true, true
+		}
+	case d := <-done:
+		select {
+		case <-vs.parked:
+			vs.isParked = true
+			return d, true, false
+		case <-time.After(grace):
+			return d, false, false
+		}
+	case <-t:
+		return -1, false, true
+	}
+}
+
+// Release lets a parked session apply the message it holds.
+func (vs *VerifR2Session) Release() {
+	if vs.isParked {
+		vs.isParked = false
+		vs.release <- struct{}{}
+	}
+}
+
+// Parked tells whether the session currently holds an unapplied message.
+func (vs *VerifR2Session) Parked() bool { return vs.isParked }
+
+// State is the session's local state (layers.BFDState numbering).
+func (vs *VerifR2Session) State() layers.BFDState { return layers.BFDState(bfd.VerifR2State(vs.S)) }
+
+// RemoteDisc is the session's learned remote discriminator (0 after a detection timeout).
+func (vs *VerifR2Session) RemoteDisc() uint32 { return bfd.VerifR2RemoteDisc(vs.S) }
+
+// Close stops all sessions.
+func (v *VerifR2DP) Close() {
+	for _, vs := range v.sessions {
+		vs.Release()
+	}
+	if v.cancel != nil {
+		v.cancel()
+	}
+	seen := map[*bfd.Session]bool{}
+	for _, vs := range v.sessions {
+		if !seen[vs.S] {
+			seen[vs.S] = true
+			// drain a possible park that raced with Close
+			go func(vs *VerifR2Session) {
+				for {
+					select {
+					case <-vs.parked:
+						vs.release <- struct{}{}
+					case <-time.After(200 * time.Millisecond):
+						return
+					}
+				}
+			}(vs)
+			_ = vs.S.Close()
+		}
+	}
+}
+
+// LocalHost is the SCION host address of the router (source of SCMP messages).
+func (v *VerifR2DP) LocalHost() addr.Host { return v.d.localHost }
+
+type verifR2CaptureLink struct {
+	Link
+	got [][]byte
+}
+
+func (c *verifR2CaptureLink) Send(p *Packet) bool {
+	c.got = append(c.got, append([]byte(nil), p.RawPacket...))
+	return false // bfdSend then returns the buffer to the pool
+}
+
+// BFDSend makes the BFD sender of the link behind ifID (the real bfdSend.Send) emit the given
+// control message and returns the bytes it queued on the link. Only for data planes whose
+// sessions are not running (the sender is not goroutine safe).
+func (v *VerifR2DP) BFDSend(ifID uint16, msg *layers.BFD) ([]byte, error) {
+	l := v.d.interfaces[ifID]
+	if l == nil || l.BFDSession() == nil {
+		return nil, fmt.Errorf("no session")
+	}
+	b, ok := l.BFDSession().Sender.(*bfdSend)
+	if !ok {
+		return nil, fmt.Errorf("unexpected sender type")
+	}
+	if v.d.packetPool.pool == nil {
+		v.d.initPacketPool(4)
+	}
+	c := &verifR2CaptureLink{Link: v.d.interfaces[b.ifID]}
+	v.d.interfaces[b.ifID] = c
+	err := b.Send(msg)
+	v.d.interfaces[b.ifID] = c.Link
+	if err != nil {
+		return nil, err
+	}
+	if len(c.got) != 1 {
+		return nil, fmt.Errorf("sender queued %d packets", len(c.got))
+	}
+	return c.got[0], nil
+}
